@@ -32,6 +32,15 @@ CLAIMED.update({
    technique="Verus contracts on extracted manifest replay / bootstrap apply loops", design='5 (C03), 4.4'),
 })
 
+CLAIMED.update({
+ 'C12': dict(
+   text="Function-level proofs on statement ranges extracted from the LIMIT and TopN coroutines: for every (offset, limit) the builder can pass, every chunking and every batch size, "
+        "local row i of a batch is emitted iff its global position lies in [offset, offset+limit); the slice is in bounds; no underflow/overflow; the stop test never cuts a window row; "
+        "TopN heap sizing cannot overflow and never pre-allocates more than a window. Partial: ORDER BY/merge order and the planner's 'table is sorted by primary key' assumption are not under contract.",
+   note="Assumes: limit/offset come from non-negative i64 constants (textual guard on executor/mod.rs); yield/continue/break lines, the child stream and DataChunk::slice are not extracted; allocation policy bound 2^32 rows.",
+   technique="Verus contracts on statement ranges extracted from the LIMIT/TopN coroutines", design='5 (C12), 4.5 U-limit/U-topncap'),
+})
+
 NA = {
  'C01': "rewrite rules are egg pattern strings inside rw! macros plus e-class analyses; 'two plan terms have equal SQL results' is not expressible as a contract on a Rust function (would be proving a hand-written semantics = a model)",
  'C05': "whole-engine observational equivalence of two async trait implementations over statement histories; no single-call or single-structure contract states it",
@@ -48,7 +57,7 @@ NA = {
 }
 # claimed in DESIGN.md but not wired yet are listed here with that reason until their units exist
 PENDING = {k: 'planned in DESIGN.md (function-level contracts) but its units are not wired into ./check yet; not claimed until they are'
-           for k in ('C02', 'C06', 'C07', 'C12')}
+           for k in ('C02', 'C06', 'C07')}
 
 
 def main():
